@@ -312,7 +312,7 @@ impl Prop for C09 {
         let what = "staging contexts (quote-splice, macro function, code parameters, macro-stage let of code, numeric recursion, lift_f) x generated stage-1 expressions x use sites";
         match tier {
             Tier::Quick => vec![Space { name: "gen", size: 12000, exhaustive: false, chunk: 100, case_timeout_s: 30.0, what }],
-            Tier::Thorough => vec![Space { name: "gen", size: 100_000, exhaustive: false, chunk: 250, case_timeout_s: 30.0, what }],
+            Tier::Thorough => vec![Space { name: "gen", size: 400_000, exhaustive: false, chunk: 250, case_timeout_s: 30.0, what }],
         }
     }
     fn run(&self, _space: &str, _index: u64, g: &mut Gen, cx: &Cx) -> CaseResult {
